@@ -36,6 +36,7 @@ import Bmc.Proofs.GenDec.FullSensorRecord
 import Bmc.Proofs.GenDec.V2Session
 import Bmc.Proofs.GenDec.AES128CBC
 import Bmc.Proofs.EndToEnd.SafeC05
+import Bmc.Proofs.C13Source
 #print axioms Bmc.Proofs.C05.deviceID_total
 #print axioms Bmc.Proofs.C05.deviceID_safe
 #print axioms Bmc.Proofs.C05.chassis_total
@@ -162,3 +163,4 @@ import Bmc.Proofs.EndToEnd.SafeC05
 #print axioms Bmc.Proofs.EndToEnd.generated_AES128CBC_safe
 #print axioms Bmc.Proofs.EndToEnd.generated_V2Session_safe
 #print axioms Bmc.Proofs.EndToEnd.generated_parseCipherSuiteRecordData_safe
+#print axioms Bmc.Proofs.C13.transport_source
